@@ -8,7 +8,7 @@ HOOKS = {
 NOTES = ("Contract-based deductive verification: pyvc generates VCs from the real source on every run; "
          "exit 0 = all obligations discharged, 1 = refuted obligation (VIOLATION, replayed natively where a "
          "counter-model exists), 2 = undecided, 3 = checker crash. See DESIGN.md.")
-TB = ("z3/cvc5; the pyvc executor (guarded by the native cross-check of every contract on the real function and by "
+TB = ("z3 (5.1 wheel, 4.8.12 binary) / cvc5; the pyvc executor (guarded by the native cross-check of every contract on the real function and by "
       "mutant self-tests); assumed contracts of bisect / str methods on ASCII; Python ints exact.")
 CHECKS = {
     "C01": dict(
@@ -17,7 +17,9 @@ CHECKS = {
         note=TB, technique="contracts + VC generation from the real AST, z3"),
     "C19": dict(
         text="Column letters <-> numbers proved inverse for all n >= 0 (no bound) via a Horner-fold spec function; "
-             "increment proved with a loop invariant and variant; remaining addressing forms in progress.",
+             "increment, translate_from_any and the table-level coordinate translation (negatives count from the current end) "
+             "proved; agreement of the coordinate forms on cell / column-range / row-range reads and named-range addresses "
+             "(write, read back, rename) are bounded stand-ins.",
         note=TB + " Character classes exact on ASCII inputs.", technique="contracts + loop invariants + spec-function lemmas, z3"),
 }
 CHECKS["C18"] = dict(
@@ -37,17 +39,23 @@ CHECKS["C06"] = dict(
     technique="symbolic execution over an attribute-map model, one case per type, z3")
 CHECKS["C02"] = dict(
     text="Representation invariant (maps = prefix sums of the XML repeats, caches coherent or reset) proved as a "
-         "postcondition of the vault-level mutators for all run-length states; higher layers in progress.",
+         "postcondition of the vault-level mutators and of the Row- and Table-level operations built on them, for all "
+         "run-length states; Table.get_value / get_cell proved to return the content located by the row map and the row's "
+         "cell map (what a fresh parse computes); live `row.repeated = n` and the overlap class are listed known findings.",
     note=TB + " lxml child-list operations as an abstract sequence model (flat table layout).",
     technique="representation invariant + abstract view, VCs from the real AST, z3")
 CHECKS["C07"] = dict(
-    text="Map/repeat consistency clauses of the vault invariant proved for set/insert/delete of items of all three kinds.",
+    text="Map/repeat consistency clauses of the vault invariant proved for set/insert/delete of items of all three kinds and "
+         "for the Row- and Table-level operations built on them; repeat attributes written absent or as a canonical integer >= 2.",
     note=TB + " lxml child-list operations as an abstract sequence model (flat table layout).",
     technique="representation invariant, VCs from the real AST, z3")
 BND = " Bounded stand-ins (specs/b_*.py, labelled bounded in the evidence, never counted as proved) cover the API-level behaviour over stated small scopes."
 CHECKS["C01"]["text"] = ("Run-length vault layer proved for all states: map kernel, set/insert/delete of an item in a Row or Table vault "
     "(invariant, pointwise grid view, length, exact abstract operation), and the Row-level cell operations on top of them "
-    "(modular use of the proved abstract operations); the overlap input class of set is a listed known finding." )
+    "and the Table-level row operations (append_column, append_row with columns, set_row, insert_row, delete_row, the row "
+    "getters, get_value / get_cell read through both position maps) on top of them, by modular use of the proved contracts; "
+    "clone=True stores a copy (argument stays outside the container); the overlap input class of set is a listed known "
+    "finding; Table.set_cell / set_value, append_row on a table without columns and the range getters are bounded stand-ins." )
 CHECKS["C01"]["note"] = TB + " lxml child-list operations as an abstract sequence model (flat table layout)." + BND
 CHECKS["C02"]["note"] += BND
 CHECKS["C07"]["note"] += BND
@@ -57,11 +65,13 @@ CHECKS["C05"] = dict(
     note=TB + BND, technique="contracts over an lxml attribute model, z3; bounded native contracts for the lxml pipeline")
 CHECKS["C08"] = dict(
     text="Row getters proved for all run-length states: content at the addressed position, x/y stamps, detached copy when "
-         "cloning or reading outside, no growth (frame), invariant kept; vault results are fresh nodes (exact clause).",
+         "cloning or reading outside, no growth (frame), invariant kept; the Table-level row getters and Table.get_cell "
+         "likewise (content of the grid position, stamps); vault results are fresh nodes (exact clause); range getters bounded.",
     note=TB + BND, technique="postconditions + freshness over the abstract XML model, z3")
 CHECKS["C10"] = dict(
     text="No-alias clauses of the map kernel (returned list fresh or the argument itself, argument untouched), clone-or-"
-         "argument identity of the nodes inserted by the vault operations and detached copies of the Row getters proved.",
+         "argument identity of the nodes inserted by the vault operations, detached copies of the Row getters and the "
+         "stores-by-copy clause of set/insert/append (clone=True) proved; Document.clone over packagings and load states bounded.",
     note=TB + BND, technique="heap identity / freshness clauses in the VC generator, z3")
 CHECKS["C11"] = dict(
     text="Frame condition: the serialisation / pretty-printing entry points of XmlPart do not modify the in-memory trees "
